@@ -382,7 +382,7 @@ fn long_bodies(ctx: &Ctx) -> Vec<(String, Vec<u8>)> {
 }
 
 fn explore(ctx: &Ctx, rep: &mut Report) {
-    let maxlen = ctx.pick(8u32, 12u32);
+    let maxlen = ctx.pick(8u32, 11u32);
     let alpha: [&[u8]; 3] = [b"a", b"\n", b"\r"];
     let r = par_strings(ctx, "small/static", &alpha, maxlen, |t, _idx, rep| {
         rep.input();
